@@ -48,6 +48,8 @@ pub fn run_exec(cmd: &str, input: &str, env: &BTreeMap<String, String>, cwd: &st
             libc::setrlimit(libc::RLIMIT_AS, &mem);
             let core = libc::rlimit { rlim_cur: 0, rlim_max: 0 };
             libc::setrlimit(libc::RLIMIT_CORE, &core);
+            // same address-space layout in every executor: a replay must not depend on ASLR
+            libc::personality(libc::ADDR_NO_RANDOMIZE as libc::c_ulong);
             Ok(())
         });
     }
